@@ -1,7 +1,7 @@
 (* Properties/C17.v — attribute container, JSON storage form, merge_attributes, equality.
    Statements only; every proof is `exact`. *)
 From GV Require Import Base.Prelude Base.PyStr Model.Bins Model.DB Model.Parser Model.Import Model.Attrs Model.Container
-  Proofs.C05Proofs Proofs.C17Proofs.
+  Model.Json Proofs.C05Proofs Proofs.C17Proofs Proofs.JsonProofs.
 Open Scope Z_scope.
 
 (* however a value is set, a sequence is stored: a scalar becomes a one-item list, lists/tuples are kept *)
@@ -35,6 +35,27 @@ Theorem C17_json_identity : forall (json : Type) (dumps : attrs -> json) (loads 
   forall a, NoDup (map fst a) -> unjsonify json loads (jsonify json dumps a) = Some a.
 Proof. exact l_json_identity. Qed.
 Print Assumptions C17_json_identity.
+
+(* ... and with the json library modelled as text (Model/Json.v: simplejson.dumps with separators (",",":") and
+   ensure_ascii, simplejson.loads in strict mode): the stored text decodes to the same mapping, same key order, for
+   every mapping whose strings are code points below 0x110000 with no high surrogate directly followed by a low one *)
+Theorem C17_json_text_roundtrip : forall a, attrs_ok a -> NoDup (map fst a) -> loads_attrs (dumps_attrs a) = Some a.
+Proof. exact l_attrs_roundtrip. Qed.
+Print Assumptions C17_json_text_roundtrip.
+
+(* in particular for any Unicode content (sequences of Unicode scalar values) *)
+Theorem C17_json_unicode_roundtrip : forall a,
+  forallb (fun kv => forallb scalar (fst kv) && forallb (forallb scalar) (snd kv)) a = true -> NoDup (map fst a) ->
+  loads_attrs (dumps_attrs a) = Some a.
+Proof. exact l_unicode_roundtrip. Qed.
+Print Assumptions C17_json_unicode_roundtrip.
+
+(* the side condition is necessary: a str holding the two halves of a surrogate pair as separate code points (not
+   Unicode content; unreachable from parsed input) comes back as one character *)
+Theorem C17_json_surrogate_halves_collapse :
+  loads_attrs (dumps_attrs [([107%N], [[55357%N; 56832%N]])]) = Some [([107%N], [[128512%N]])].
+Proof. exact l_pair_collapses. Qed.
+Print Assumptions C17_json_surrogate_halves_collapse.
 
 (* merge_attributes: per key exactly the union of both arguments' values (numeric_sort on or off) ... *)
 Theorem C17_merge_attributes_union : forall numeric a1 a2 m, NoDup (map fst a1) -> NoDup (map fst a2) ->
